@@ -6,8 +6,10 @@ import ComposeVerif.Model.Path
 Model of `ApplyExtends`, `applyServiceExtends`, `getExtendsBaseFromFile`, `cycleTracker.Add`
 and `deepClone`, quirks included:
 
-* the tracker records `(refFile, extendingName)` — for a same-file step `refFile` is the file name
-  found in the context (always the *main* file, also while walking inside a base file);
+* the tracker records `(current file, extendingName)`: the main file's name for services of the main
+  file, the reference string for services of an extended file (since `fix: the extends cycle tracker
+  records the file the extending service lives in`; before it the key was `(refFile, extendingName)`
+  with the *main* file's name for every same-file step — see `Neg/C05.lean`, pre-fix model);
 * a resolved service is written back into the map it came from (`services[name] = merged`) only
   on a same-file step; on a cross-file step the write goes to the freshly loaded (discarded) map;
 * a `null` base leaves the extending service untouched (its `extends` attribute stays);
@@ -95,23 +97,29 @@ def baseFromFile (fs : FS) (refPath ref : String) : Out KVs :=
     | some _ => .err "fileServicesNotMapping"
 
 /-- where the base lives: (map to recurse in, tracker key, same-file?) -/
-def resolveBase (E : Env) (name ref : String) (file : Option String) (services : KVs) :
+def resolveBase (E : Env) (cur name ref : String) (file : Option String) (services : KVs) :
     Out (KVs × Key × Bool) :=
   match file with
   | none =>
     match lookup ref services with
     | none => .err "notFound"
-    | some _ => .ok (services, (E.mainFile, name), true)
+    | some _ => .ok (services, (cur, name), true)
   | some f =>
     match baseFromFile E.fs f ref with
-    | .ok svcs => .ok (svcs, (f, name), false)
+    | .ok svcs => .ok (svcs, (cur, name), false)
     | .err c => .err c
     | .panic s => .panic s
 
-/-- `applyServiceExtends`: the resolved service and the (possibly memoised) `services` map of the caller -/
-def applySvc (E : Env) : Nat → String → KVs → List Key → Out (Val × KVs)
-  | 0, _, _, _ => .panic fuelMark
-  | fuel + 1, name, services, tr =>
+/-- the file the base lives in: the referenced file, or the current one -/
+def nextFile (cur : String) : Option String → String
+  | none => cur
+  | some f => f
+
+/-- `applyServiceExtends` for service `name` of the file `cur` (the `ComposeFileKey` of the context):
+the resolved service and the (possibly memoised) `services` map of the caller -/
+def applySvc (E : Env) : Nat → String → String → KVs → List Key → Out (Val × KVs)
+  | 0, _, _, _, _ => .panic fuelMark
+  | fuel + 1, cur, name, services, tr =>
     match lookup name services with
     | none => .ok (.null, services)
     | some .null => .ok (.null, services)
@@ -123,14 +131,14 @@ def applySvc (E : Env) : Nat → String → KVs → List Key → Out (Val × KVs
         | .panic s => .panic s
         | .err c => .err c
         | .ok (ref, file) =>
-          match resolveBase E name ref file services with
+          match resolveBase E cur name ref file services with
           | .panic s => .panic s
           | .err c => .err c
           | .ok (svcs, key, same) =>
             match trackerAdd tr key with
             | none => .err "circular"
             | some tr' =>
-              match applySvc E fuel ref svcs tr' with
+              match applySvc E fuel (nextFile cur file) ref svcs tr' with
               | .panic s => .panic s
               | .err c => .err c
               | .ok (base, svcs') =>
@@ -150,7 +158,7 @@ def applySvc (E : Env) : Nat → String → KVs → List Key → Out (Val × KVs
 def applyAll (E : Env) (fuel : Nat) : List String → KVs → Out KVs
   | [], S => .ok S
   | n :: ns, S =>
-    match applySvc E fuel n S [] with
+    match applySvc E fuel E.mainFile n S [] with
     | .ok (v, S') => applyAll E fuel ns (insert n v S')
     | .err c => .err c
     | .panic s => .panic s
